@@ -1023,7 +1023,7 @@ class Curve(BaseCurve):
             weights = np.dot(transmat, oldweights)
             smallest = 1e-9 * max(abs(weig) for weig in weights)
             for weig in weights:
-                if not weig * weights[0] > 0 or abs(weig) <= smallest:
+                if abs(weig) <= smallest:
                     raise ValueError("Cannot fit: a control point goes to infinity")
             ctrlpoints = np.dot(transmat, numerator)
             ctrlpoints = [point / weig for point, weig in zip(ctrlpoints, weights)]
